@@ -4,6 +4,7 @@ with the *generated* layout, render the logical dump.
 -/
 import Driver.Hist
 import Jamm.Model.FileCheck
+import Jamm.Model.EncodeWrites
 import Jamm.Gen.Layout
 import Jamm.Gen.HashOrder
 import Driver.Sha3
@@ -49,6 +50,27 @@ structure FileReport where
   reachPages : List Nat := []
   view : Option BucketView := none
   freePages : List Nat := []
+  pagesReencoded : Nat := 0
+
+mutual
+partial def treePages : Tree Bytes LeafVal → List Nat
+  | .leaf p _ => [p]
+  | .branch p kids => p :: forestPages kids
+partial def forestPages : Forest Bytes LeafVal → List Nat
+  | .nil => []
+  | .cons _ t rest => treePages t ++ forestPages rest
+end
+
+partial def viewPages (b : BucketView) : List Nat :=
+  treePages b.tree ++ b.subs.flatMap (fun s => viewPages s.2)
+
+/-- Layer S writer tie: re-encoding the decoded node with the model of `Page::write_node` must reproduce
+the real bytes at every offset the model writes (header fields, element records, packed keys/values) -/
+def writerAgrees (L : Layout) (s : Src) (pagesize : Nat) (p : LPage) : Bool :=
+  match p.body with
+  | .leaf es => (leafPageWrites L pagesize p.id p.overflow es).all (fun w => Src.holds s w)
+  | .branch es => (branchPageWrites L pagesize p.id p.overflow es).all (fun w => Src.holds s w)
+  | _ => true
 
 /-- decode errors met while unfolding are turned into `notATree`; to report them precisely we probe
 the page store for the first decode error among pages reached -/
@@ -64,9 +86,15 @@ def checkBytes (L : Layout) (order : List MetaField) (ba : ByteArray) (pagesize 
       | .error _ => none
     match checkFile mt pg ba.size pagesize with
     | .ok sum =>
+      let pages := viewPages sum.root
+      match pages.find? (fun pid => match pg pid with
+          | some p => p.id != pid || !writerAgrees L s pagesize p
+          | none => true) with
+      | some pid => { ok := false, msg := s!"writer-layout:page={pid}: the bytes of this page are not what the model of write_node produces for the node it decodes to", numPages := mt.numPages, txId := mt.txId, fileSize := ba.size }
+      | none =>
       { ok := true, msg := "ok", dump := dumpView sum.root true, numPages := mt.numPages, txId := mt.txId,
         free := sum.free.length, reach := sum.reach.length, fileSize := ba.size,
-        reachPages := sum.reach ++ sum.freelistRun, freePages := sum.free, view := some sum.root }
+        reachPages := sum.reach ++ sum.freelistRun, freePages := sum.free, view := some sum.root, pagesReencoded := pages.length }
     | .error e =>
       let detail := match e with
         | .notATree p => match decodePage L s pagesize p with
